@@ -19,7 +19,7 @@ def main():
     a = ap.parse_args()
     seed = int(os.environ.get("VERIF_SEED", "0") or 0)
     sys.path.insert(0, os.path.join(HERE, "harness"))
-    sys.path.insert(0, "/repo")
+    sys.path.insert(0, os.environ.get("PSX_REPO", "/repo"))
     from . import runner
     if a.replay:
         res = runner.replay_file(a.replay)
